@@ -5,6 +5,7 @@ import warnings
 
 import numpy as np
 import pandas as pd
+import scipy.stats
 
 from menelaus.data_drift import CDBD, HDDDM
 
@@ -111,6 +112,48 @@ def dict_close(got, exp, tol=1e-9):
     return None
 
 
+def tune_significance(cfg, calls, below):
+    """significance for which beta at the 4th batch of the first epoch (detect_batch 3: second decision) is epsilon * (1 -/+ 1e-6);
+    the threshold is affine in the critical factor, which two runs of the specification determine.  None when the first epoch does
+    not get that far without a drift or the required value is not a valid setting"""
+    if len(calls) < 5 or any(op != "update" for op, _ in calls[1:5]):
+        return None
+
+    def probe(sig):
+        m = H.HDMModel(cfg["divergence"], 3, cfg["statistic"], sig)
+        m.set_reference(calls[0][1])
+        for _, X in calls[1:4]:
+            m.update(X)
+        if m.state == "drift":
+            return None
+        nref = len(m.ref)
+        out = m.update(calls[4][1])
+        return out["eps"], out["beta"], nref + len(calls[4][1]) - 2
+
+    s1, s2 = (0.5, 1.5) if cfg["statistic"] == "stdev" else (0.2, 0.02)
+    a, b = probe(s1), probe(s2)
+    if a is None or b is None or a[0] is None or a[1] is None or b[1] is None:
+        return None
+    eps, dof = a[0], a[2]
+    f = (lambda sg: sg) if cfg["statistic"] == "stdev" else (lambda sg: float(scipy.stats.t.ppf(1 - sg / 2, dof)))
+    c = (b[1] - a[1]) / (f(s2) - f(s1))
+    mean = a[1] - f(s1) * c
+    target = eps * ((1 - 1e-6) if below else (1 + 1e-6))
+    if c <= 1e-9 * max(mean, 1e-300) or target <= mean:
+        return None
+    fac = (target - mean) / c
+    if cfg["statistic"] == "stdev":
+        sig = fac
+    else:
+        sig = 2 * float(scipy.stats.t.sf(fac, dof))
+        if not (1e-12 < sig < 1):
+            return None
+    chk = probe(float(sig))
+    if chk is None or chk[1] is None or abs(chk[1] - target) > 1e-8 * target:
+        return None
+    return float(sig)
+
+
 def run_case(case, ctx):
     warnings.simplefilter("ignore")
     if case["kind"] == "axiom":
@@ -125,6 +168,12 @@ def run_case(case, ctx):
         cfg = draw_cfg(rng)
         r_ = rng.random()
         batches = gen.batch_sequence(rng, int(rng.integers(6, 42)), cfg["d"], size=(8, 200) if r_ < 0.3 else ((3, 9) if r_ < 0.4 else (8, 60)), shift_p=0.3)
+        if rng.random() < 0.15:
+            # batches of one size that alternate between narrow and wide spreads: drifts follow each other closely, the adopted batch has
+            # the same bin count as the reference it replaces and holds the extremes of both
+            m_ = int(rng.integers(9, 130))
+            batches = [rng.normal(0, float(rng.choice([1.0, 1.0, 4.0, 0.3])), size=(m_, cfg["d"])) for _ in range(len(batches))]
+            ctx.count("histories_equal_sizes_alternating_spread")
         calls = [("set_reference", batches[0])]
         for X in batches[1:]:
             if rng.random() < 0.05:
@@ -132,6 +181,13 @@ def run_case(case, ctx):
             else:
                 calls.append(("update", X))
         as_frame = bool(rng.random() < 0.3)
+        if cfg["detect_batch"] == 3 and cfg["divergence"] != "probe" and rng.random() < 0.9:
+            # boundary seeking: the significance is tuned (from the specification's own run) so that at the second decision of the first
+            # epoch the threshold lies a relative 1e-6 below / above epsilon - "exceeds" must mean exceeds, with no tolerance either way
+            tuned = tune_significance(cfg, calls, below=bool(rng.random() < 0.5))
+            if tuned is not None:
+                cfg["significance"] = tuned
+                ctx.count("histories_with_threshold_tuned_to_epsilon")
         if rng.random() < 0.15:
             # dtype varies along the history: a whole-number reference handed over with an integer dtype, later batches as floats
             calls[0] = ("set_reference", np.round(calls[0][1] * 3))
